@@ -91,7 +91,16 @@ pub fn run(ctx: &mut Ctx) {
         (1 << 11, "Mix @(1)dough{500%g}.\n\nBake @&(1)dough{}.", 0, Box::new(|s| !s.contains(">step") && !s.contains(">section") && !s.contains("diags=[E"))),
         (1 << 11, "Mix.\n\n= B\n\nBake @&(~1)dough{} and @&(=1)x{} and @&(=~1)y{}.", 1, Box::new(|s| !s.contains(">step") && !s.contains(">section"))),
     ];
+    // every converse input is also read with core components (with and without quantities) in front of it in the same step:
+    // what an earlier component of the step did must not change how the disabled syntax is read
+    // (each prefix ends with a component, so the text items of the case itself are unchanged; no timers: with the empty
+    // converter a timer unit is unknown)
+    const PREFIXES: [&str; 5] = ["", "Put in #bowl{2}", "Take @milk{1%l} and #pan{}", "With @egg{2}", "Use #big pot{1} or #lid{}"];
+    let cases: Vec<(u32, String, u8, &Box<dyn Fn(&str) -> bool>)> = cases.iter().flat_map(|(flag, input, conv, pred)| {
+        PREFIXES.iter().filter(move |p| p.is_empty() || !input.starts_with(">>")).map(move |p| (*flag, format!("{p}{input}"), *conv, pred))
+    }).collect();
     for (flag, input, conv, pred) in &cases {
+        let input: &str = input;
         for k in 0..256 {
             let ext = ext_pattern(k);
             if ext & flag != 0 { continue; }
